@@ -80,8 +80,8 @@ PROPS = {
         not_decided=["sizes beyond 3x3", "SIMD back-ends"],
     ),
     "C03": dict(
-        units=["G1", "G2", "G3", "G4", "G7", "K1", "K2", "K5", "K6", "K7", "A3", "T1", "G5a", "G5c", "P", "K9"],
-        quick_skip=[r"^k9_(?!u8x3_(sse4|avx2)_one_row_w2|vertical_(sse4|avx2)_u8_w7_t2)", r"^g5b_", r"^c12_copy_(1x3|3x2|3x3)$", r"^g3_typed_(ref_)?from_buffer_(u8x3|u16x2)$", r"^g8_temp_image_(u16x2|zero)$", r"^k7_u16x1", r"^k8_plan"],
+        units=["G1", "G2", "G3", "G4", "G7", "K1", "K2", "K5", "K6", "K7", "A3", "T1", "G5a", "G5c", "P", "K9", "K10"],
+        quick_skip=[r"^k9_(?!u8x3_(sse4|avx2)_one_row_w2|vertical_(sse4|avx2)_u8_w7_t2)", r"^g5b_", r"^c12_copy_(1x3|3x2|3x3)$", r"^g3_typed_(ref_)?from_buffer_(u8x3|u16x2)$", r"^g8_temp_image_(u16x2|zero)$", r"^k7_u16x1", r"^k8_plan", r"^k10_(u16|f32x[234]|i32x1_vertical|vertical)"],
         level="proof",
         level_text="C03 is decided as the conjunction of the safety obligations of the units under contract: arithmetic overflow, division "
                    "by zero, array bounds, unwrap, pointer validity of every unchecked access are obligations generated by Verus / CBMC for "
@@ -92,20 +92,21 @@ PROPS = {
                      "rayon scheduling", "sizes beyond the bounded harnesses for the pipeline glue"],
     ),
     "C01": dict(
-        units=["W", "K4", "K6", "K7", "L1", "P"],
+        units=["W", "K4", "K6", "K7", "K10", "L1", "P"],
         level="model_checking",
         level_text="Bounded in geometry: every weight of the real precompute_coefficients equals an oracle written from the statement "
                    "(centre mapping, documented kernel and support, normalisation) within 1e-12 on enumerated 1-D geometries for the four "
-                   "polynomial filters; Normalizer16::new quantises as round(w*2^p) (one symbolic window); the native kernels compute the "
-                   "round-half-up fixed-point formula (concrete taps x all pixels, all taps x concrete pixels); pass planning is observed "
+                   "polynomial filters; Normalizer16::new quantises as round(w*2^p) (one symbolic window); the native kernels of every "
+                   "pixel format compute the round-half-up fixed-point formula (K7, K10: concrete taps x all pixels, all taps x concrete pixels; float "
+                   "and i32 kernels: the f64 sum in window order on concrete grids); pass planning is observed "
                    "through the requested tables. The composed error bound is a four-line derivation over these contracts, not one theorem.",
         level_note="Trusted: Kani/CBMC float model. Lanczos3/Hamming/Gaussian VALUES are not decided (sin/cos/exp have no model); they share "
                    "all code except their fn(f64)->f64 and their get_filter_func entry with the four filters that are checked.",
-        not_decided=["values of Lanczos3, Hamming, Gaussian weights (N1)", "geometries beyond the enumerated ones", "u8x2/u8x3/u16x2..4/i32/f32 native kernels and all SIMD kernels",
+        not_decided=["values of Lanczos3, Hamming, Gaussian weights (N1)", "geometries beyond the enumerated ones", "SIMD kernels of the u16 / i32 / f32 formats (the u8 family is compared with the native kernels under C02); the float native kernels only on concrete grids",
                      "kernel == formula when taps AND pixels are symbolic together (SAT does not finish)"],
     ),
     "C10": dict(
-        units=["L1", "W", "K7", "K4", "K9"],
+        units=["L1", "W", "K7", "K4", "K9", "K10"],
         quick_skip=[r"^k9_(?!native|vertical_(sse4|avx2)_u8_w7_t2|u8x4_avx2_one_row_w0)", r"^k7_u16x1_taps_fixed$"],
         level="model_checking",
         level_text="The conditional lemma (taps summing to 2^p + e with |e|*max < 2^(p-1) reproduce every uniform value exactly, any window "
@@ -115,7 +116,7 @@ PROPS = {
         not_decided=["premise for Lanczos3 / Hamming / Gaussian", "premise for geometries beyond the enumerated ones", "float formats", "SIMD back-ends"],
     ),
     "C18": dict(
-        units=["L1", "W", "K7", "K4", "K9"],
+        units=["L1", "W", "K7", "K4", "K9", "K10"],
         quick_skip=[r"^k9_(?!native|vertical_(sse4|avx2)_u8_w7_t2|u8x4_avx2_one_row_w0)"],
         level="model_checking",
         level_text="Order preservation and no-overshoot for non-negative taps are PROVED by Verus over the fixed-point formula for any window "
@@ -136,7 +137,7 @@ PROPS = {
                      ],
     ),
     "C05": dict(
-        units=["G4", "K7", "P", "A6", "M1", "M3"],
+        units=["G4", "K7", "K10", "P", "A6", "M1", "M3"],
         level="model_checking",
         level_text="Frame conditions checked bounded: every container hands out exactly its width x height rectangle by address (G4); kernels, "
                    "copy, nearest, alpha ops, component conversion and mapping write the destination rows only (spare pixel / surroundings of "
